@@ -11,10 +11,16 @@ def spec(th, seed):
         units.append(U('C01_compwise.clang', 'mon/C01_compwise.cpp', 'clang'))
         for p in (2, 4, 5):
             units.append(U('C01_vec.part%d.clang' % p, 'mon/C01_vec.cpp', 'clang', defs=['-DPART=%d' % p], scale=0.3))
+    # aliasing supplement (mon/alias.cpp): destination / out-parameter is one of the operands; oracle = the same call with a copy of that operand
+    units.append(U('C01_alias', 'mon/alias.cpp', 'plain', defs=['-DALIAS_PROP=1']))
+    units.append(U('C01_alias.simd-aligned', 'mon/alias.cpp', 'plain', defs=['-DALIAS_PROP=1'] + ['-DGLM_FORCE_INTRINSICS', '-DGLM_FORCE_DEFAULT_ALIGNED_GENTYPES', '-mavx2', '-mfma']))
+    if th:
+        units.append(U('C01_alias.clang', 'mon/alias.cpp', 'clang', defs=['-DALIAS_PROP=1']))
+        units.append(U('C01_alias.simd-sse2.O0', 'mon/alias.cpp', 'plainO0', defs=['-DALIAS_PROP=1', '-DGLM_FORCE_INTRINSICS', '-DGLM_FORCE_DEFAULT_ALIGNED_GENTYPES', '-msse2'], scale=0.2))
     return {
         'units': units,
         'parallel_units': 4,
-        'rule': 'for every catalogued function/operator and every vector length 1-4 (x qualifiers highp/mediump/lowp for float, subsets for other types) the vector overload is evaluated on 4-component tuples taken from the special-value lattice (all rotations against partners) and from random streams (bit patterns, log-uniform magnitudes, small halves/ties, equal-operand forcing) and every component is compared with the scalar overload of the same glm function (builtin operator for operators/relationals); scalar and vec1 arguments are additionally compared with the explicitly broadcast vector. Parts: 1 unary float functions, 2 n-ary float functions, 3 integer/relational functions, 4 float/double operators, 5 int/uint operators, 6 sized-integer operators, 7 matrix abs/mix/equal; plus mon/C01_compwise.cpp: gtx compNormalize/compScale per component against the vec1 call (all 8/16-bit values, lattice+random 32-bit) and compAdd/compMul/compMin/compMax/fcompMin/fcompMax against the fold of the scalar operation',
+        'rule': 'aliasing supplement (mon/alias.cpp): every compound/in-place/out-parameter form is run twice from the same state, once with the aliased operand replaced by a copy, and the final states must be bitwise identical; for every catalogued function/operator and every vector length 1-4 (x qualifiers highp/mediump/lowp for float, subsets for other types) the vector overload is evaluated on 4-component tuples taken from the special-value lattice (all rotations against partners) and from random streams (bit patterns, log-uniform magnitudes, small halves/ties, equal-operand forcing) and every component is compared with the scalar overload of the same glm function (builtin operator for operators/relationals); scalar and vec1 arguments are additionally compared with the explicitly broadcast vector. Parts: 1 unary float functions, 2 n-ary float functions, 3 integer/relational functions, 4 float/double operators, 5 int/uint operators, 6 sized-integer operators, 7 matrix abs/mix/equal; plus mon/C01_compwise.cpp: gtx compNormalize/compScale per component against the vec1 call (all 8/16-bit values, lattice+random 32-bit) and compAdd/compMul/compMin/compMax/fcompMin/fcompMax against the fold of the scalar operation',
         'assumptions': [
             'oracle = the scalar overload of the same glm function (the statement itself relates the two overloads); EXACT (bitwise, NaN==NaN) except: mix/smoothstep/mod/fma within k*u*S of each other (k<=16), fmin/fmax/fclamp may return either zero for (+0,-0), lowp float inversesqrt within 2^-8 relative of 1/sqrt(x)',
             'domains: no NaN for min/max/clamp/step/sign (GLSL undefined), quiet NaNs only elsewhere, divisor != 0 and not MIN/-1, shift counts < width, signed 32/64-bit operands small enough not to overflow, edge0<edge1 for smoothstep, min<=max for clamp, |x|<2^31 for roundEven/iround/uround, fma operands bounded so that a*b cannot overflow',
